@@ -136,6 +136,11 @@ pub fn run(
             if bidirectional_ops::route_contains_loop(&candidate_path, si)? {
                 continue;
             }
+            // the spur search never saw the edge it continues from: the turn at the junction of
+            // root path and spur path has not been shown to the frontier model
+            if !bidirectional_ops::route_is_permitted(&candidate_path, si) {
+                continue;
+            }
             let candidate_test_path: &Vec<&EdgeTraversal> = &candidate_path.iter().collect_vec();
             // replace best candidate if current candidate is sufficiently dissimilar to every
             // accepted path and improves on cost
